@@ -354,6 +354,33 @@ def waitTimeout : (timeout : Nat) → (flag0 : Bool) → List CvWake → Option 
           else some w.flag                                      -- checked_sub = None (sync.rs:180)
         else some w.flag                                        -- timed out (sync.rs:188)
 
+/-- Total time `Trigger::wait_timeout` spends inside `Condvar::wait_timeout` calls. -/
+def waitTimeoutSpent : (timeout : Nat) → (flag0 : Bool) → List CvWake → Nat
+  | timeout, flag, wakes =>
+    if flag then 0
+    else if timeout = 0 then 0
+    else match wakes with
+      | [] => 0
+      | w :: rest =>
+        if !w.timedOut then
+          if w.elapsed ≤ timeout then w.elapsed + waitTimeoutSpent (timeout - w.elapsed) w.flag rest
+          else w.elapsed
+        else w.elapsed
+
+/-- Every condvar wait that is performed returns within the time it was asked for, plus a slack `δ`
+    (the runtime assumption about `Condvar::wait_timeout`). -/
+def waitTimeoutHonest (δ : Nat) : (timeout : Nat) → (flag0 : Bool) → List CvWake → Prop
+  | timeout, flag, wakes =>
+    if flag then True
+    else if timeout = 0 then True
+    else match wakes with
+      | [] => True
+      | w :: rest =>
+        w.elapsed ≤ timeout + δ ∧
+        (if !w.timedOut then
+          (if w.elapsed ≤ timeout then waitTimeoutHonest δ (timeout - w.elapsed) w.flag rest else True)
+         else True)
+
 /-- State of the oneshot at `try_recv` (tokio.rs:123). -/
 inductive Oneshot where
   | sent      -- the callback ran (`notifier.send(())`)
